@@ -8,12 +8,12 @@ import (
 	"reflect"
 	"strconv"
 	"testing"
-	"unsafe"
 
 	"github.com/welllog/golib/ringz"
 	"pgregory.net/rapid"
 
 	"verif/harness/internal/pb"
+	"verif/harness/internal/ringff"
 )
 
 func TestMain(m *testing.M)   { pb.Main(m) }
@@ -166,48 +166,6 @@ func runRing(c ringCase, rec *pb.Rec) error {
 
 // ---------------------------------------------------------------- SyncRing, sequential, incl. fast-forwarded counters
 
-// fastForward puts a fresh SyncRing[int] into the state that k push/pop pairs produce:
-// head = tail = k and slot i expects position k + ((i-k) mod cap)   (all mod 2^32).
-// It returns false if the struct layout is not the one it understands.
-func fastForward(r *ringz.SyncRing[int], k uint32) bool {
-	v := reflect.ValueOf(r).Elem()
-	vals, head, tail, capF := v.FieldByName("values"), v.FieldByName("head"), v.FieldByName("tail"), v.FieldByName("cap")
-	if !vals.IsValid() || !head.IsValid() || !tail.IsValid() || !capF.IsValid() || vals.Kind() != reflect.Slice ||
-		head.Kind() != reflect.Uint32 || tail.Kind() != reflect.Uint32 || capF.Kind() != reflect.Uint32 {
-		return false
-	}
-	et := vals.Type().Elem()
-	pf, ok := et.FieldByName("pos")
-	if !ok || pf.Type.Kind() != reflect.Uint32 || et.Kind() != reflect.Struct {
-		return false
-	}
-	c := uint32(capF.Uint())
-	if c == 0 || c&(c-1) != 0 || vals.Len() != int(c) {
-		return false
-	}
-	*(*uint32)(unsafe.Pointer(head.UnsafeAddr())) = k
-	*(*uint32)(unsafe.Pointer(tail.UnsafeAddr())) = k
-	base := vals.Pointer()
-	for i := uint32(0); i < c; i++ {
-		p := (*uint32)(unsafe.Pointer(base + uintptr(i)*et.Size() + pf.Offset))
-		*p = k + ((i - k) & (c - 1))
-	}
-	return true
-}
-
-// snapshot reads head, tail and the slot sequence numbers (for the self-validation of fastForward).
-func snapshot(r *ringz.SyncRing[int]) []uint32 {
-	v := reflect.ValueOf(r).Elem()
-	vals := v.FieldByName("values")
-	et := vals.Type().Elem()
-	pf, _ := et.FieldByName("pos")
-	out := []uint32{uint32(v.FieldByName("head").Uint()), uint32(v.FieldByName("tail").Uint())}
-	for i := 0; i < vals.Len(); i++ {
-		out = append(out, *(*uint32)(unsafe.Pointer(vals.Pointer() + uintptr(i)*et.Size() + pf.Offset)))
-	}
-	return out
-}
-
 type syncCase struct {
 	Req  int    // requested capacity
 	FF   uint32 // fast-forward by this many push/pop pairs first (0: none)
@@ -254,7 +212,7 @@ func runSync(c syncCase, rec *pb.Rec) error {
 	}
 	pos := uint64(0) // absolute number of pushes so far (for the wrap classes)
 	if c.FF != 0 {
-		if !fastForward(&r, c.FF) {
+		if !ringff.FastForward(&r, c.FF) {
 			ffUnsupported = true
 			rec.Class("SKIPPED: SyncRing layout not recognised, fast-forward not applied")
 		} else {
@@ -391,12 +349,12 @@ func runFF(c ffCase, rec *pb.Rec) error {
 			return fmt.Errorf("honest stepping: pop %d = %d,%v", i, v, ok)
 		}
 	}
-	if !fastForward(&b, uint32(c.K)) {
+	if !ringff.FastForward(&b, uint32(c.K)) {
 		ffUnsupported = true
 		rec.Class("SKIPPED: SyncRing layout not recognised")
 		return nil
 	}
-	sa, sb := snapshot(&a), snapshot(&b)
+	sa, sb := ringff.Snapshot(&a), ringff.Snapshot(&b)
 	if fmt.Sprint(sa) != fmt.Sprint(sb) {
 		return fmt.Errorf("HARNESS: fastForward(%d) on cap %d = %v but honest stepping gives %v", c.K, a.Cap(), sb, sa)
 	}
